@@ -1,6 +1,5 @@
 """C23 — model caching is opt-in and transparent."""
 import concurrent.futures
-import contextlib
 import io
 import os
 import pathlib
@@ -644,9 +643,16 @@ def execute_with_table(
     return rc, out, err_text, tree, exc
 
 
-def unpickled_equivalence(argv: Sequence[str], name: str, text: str, targets: Sequence[str]) -> Dict[str, Any]:
+def unpickled_equivalence(
+    argv: Sequence[str], name: str, text: str, targets: Sequence[str],
+    deadline: Optional[float] = None,
+) -> Dict[str, Any]:
     chk = harness.Check("C23", "exploration", RULE, argv)
     from aas_core_codegen import intermediate, run as cg_run
+
+    if deadline is not None and time.time() > deadline:
+        chk.count("inprocess_models_skipped_for_budget")
+        return chk.export()
 
     work = env.new_dir("eq")
     private_tmp = work / "tmp"
@@ -656,7 +662,11 @@ def unpickled_equivalence(argv: Sequence[str], name: str, text: str, targets: Se
     try:
         model_path = work / "meta_model.py"
         model_path.write_text(text, encoding="utf-8")
-        result, error = cg_run.load_model(model_path, cache_model=False)
+        try:
+            result, error = cg_run.load_model(model_path, cache_model=False)
+        except Exception:  # noqa  (a crashing front end is the subject of C01)
+            chk.count("inprocess_models_crashing_the_front_end")
+            return chk.export()
         if result is None:
             chk.count("inprocess_models_rejected")
             return chk.export()
@@ -815,7 +825,7 @@ def main(argv) -> int:
     if not quick:
         v3 = corpus.v3()
         histories.insert(
-            0,
+            10,
             {"kind": "cold-warm-plain", "model": "aas_core_meta.v3", "target": "python",
              "steps": [("A", v3, True, "python"), ("A", v3, True, "python"), ("A", v3, False, "python")]},
         )
@@ -883,7 +893,11 @@ def main(argv) -> int:
             eq_jobs.append(("common_meta_models/aas_core_meta.v3.py", corpus.v3(), [target]))
 
     with concurrent.futures.ProcessPoolExecutor(max_workers=chk.pick(3, 6)) as procs:
-        futures = [procs.submit(unpickled_equivalence, list(argv), *job) for job in eq_jobs]
+        eq_deadline = chk.t0 + budget * 0.8
+        futures = [
+            procs.submit(unpickled_equivalence, list(argv), *job, eq_deadline if i >= 12 else None)
+            for i, job in enumerate(eq_jobs)
+        ]
         with concurrent.futures.ThreadPoolExecutor(max_workers=8) as threads:
             list(threads.map(guarded, histories))
         for future in futures:
@@ -892,12 +906,12 @@ def main(argv) -> int:
             except BaseException as err:  # noqa
                 chk.harness_error(f"in-process worker died: {err!r}")
 
-    chk.require_min("runs_without_flag", chk.pick(5, 60))
-    chk.require_min("runs_with_flag", chk.pick(10, 150))
-    chk.require_min("warm_hits_with_flag", chk.pick(4, 50))
-    chk.require_min("warm_hits_for_identical_text", chk.pick(4, 50))
-    chk.require_min("unpickled_tables_compared", chk.pick(20, 150))
-    chk.require_min("generator_runs_compared", chk.pick(60, 600))
+    chk.require_min("runs_without_flag", chk.pick(5, 40))
+    chk.require_min("runs_with_flag", chk.pick(10, 120))
+    chk.require_min("warm_hits_with_flag", chk.pick(4, 30))
+    chk.require_min("warm_hits_for_identical_text", chk.pick(4, 30))
+    chk.require_min("unpickled_tables_compared", chk.pick(16, 150))
+    chk.require_min("generator_runs_compared", chk.pick(48, 600))
     chk.require_min("id_sets_queried", 200)
     chk.assume(
         "reads are what the audit hook sees as open()/listdir()/scandir(); a bare "
